@@ -890,20 +890,22 @@ def p_mp_setQualifier(p):
                 p.parser.log(
                     _format("Creating namespace {0} (in MOF compiler)", ns))
             p.parser.server.create_namespace(ns)
-            if p.parser.verbose:
-                p.parser.log(
-                    _format("Setting qualifier {0}:{1}", ns, qualdecl.name))
-            p.parser.handle.SetQualifier(qualdecl, namespace=ns)
         elif ce.status_code == CIM_ERR_NOT_SUPPORTED:
             if p.parser.verbose:
                 p.parser.log(
                     _format("Qualifier {0}:{1} already exists. Deleting...",
                             ns, qualdecl.name))
-            p.parser.handle.DeleteQualifier(qualdecl.name)
-            if p.parser.verbose:
-                p.parser.log(
-                    _format("Setting qualifier {0}:{1}", ns, qualdecl.name))
-            p.parser.handle.SetQualifier(qualdecl, namespace=ns)
+            try:
+                p.parser.handle.DeleteQualifier(qualdecl.name, namespace=ns)
+            except CIMError as ce2:
+                raise MOFRepositoryError(
+                    msg=_format(
+                        "Cannot compile qualifier declaration {0!A} because "
+                        "the qualifier already exists and the CIM repository "
+                        "returned an error for DeleteQualifier",
+                        qualdecl.name),
+                    parser_token=p,
+                    cim_error=ce2)
         else:
             raise MOFRepositoryError(
                 msg=_format(
@@ -912,6 +914,21 @@ def p_mp_setQualifier(p):
                     qualdecl.name),
                 parser_token=p,
                 cim_error=ce)
+
+        # Try again to set the qualifier
+        if p.parser.verbose:
+            p.parser.log(
+                _format("Setting qualifier {0}:{1}", ns, qualdecl.name))
+        try:
+            p.parser.handle.SetQualifier(qualdecl, namespace=ns)
+        except CIMError as ce2:
+            raise MOFRepositoryError(
+                msg=_format(
+                    "Cannot compile qualifier declaration {0!A} because the "
+                    "CIM repository returned an error for SetQualifier",
+                    qualdecl.name),
+                parser_token=p,
+                cim_error=ce2)
     p.parser.qualcache[ns][qualdecl.name] = qualdecl
 
 
